@@ -223,6 +223,9 @@ func (e *env) buildRefs() error {
 			if ov.Coll != "" {
 				counts["overrides_with_"+ov.Coll+"_collection"]++
 			}
+			if ov.Zero {
+				counts["overrides_setting_an_option_switched_on_in_the_catalogue_to_its_zero_value"]++
+			}
 			switch {
 			case ov.EmptyColl && discriminated:
 				lists["empty_list_overrides_taking_effect"] = append(lists["empty_list_overrides_taking_effect"], s.ID+"/"+ov.Name)
